@@ -1003,6 +1003,12 @@ func TestC11(t *testing.T) {
 	e.payments()
 	e.manageHistories()
 	e.govSweep()
+	e.orderRoles()
+	e.paymentRoleHistories()
+	e.worldHistories()
+	e.querySweep()
+	e.authorityCases()
+	e.wrappedSweep()
 	_ = sdkmath.ZeroInt
 	e.w.Flush(t)
 }
